@@ -2,7 +2,11 @@ package main
 
 import (
 	"fmt"
+	"io"
+	"io/fs"
+	"regexp"
 	"strings"
+	"testing/fstest"
 
 	"code.gopub.tech/tpl/html"
 	"code.gopub.tech/tpl/types"
@@ -111,6 +115,61 @@ func propC07(c *ctx) error {
 			}
 		} else if impl.St != "ok" || impl.text() != t.want {
 			res.violate(rc.toJ(), t.want, J{"load": impl.Load, "st": impl.St, "out": impl.text(), "err": trunc(impl.Err, 160)}, "define / insert / replace semantics")
+		}
+	}
+	// the manager is filled by ANY mixture of loading steps (Add of single files, Parse* of file systems, in any order):
+	// everything loaded by an earlier step stays resolvable after a later one
+	{
+		lib := map[string]string{"lib/a.html": `<i :define="fa">A</i>`, "lib/b.html": `<i :define="fb">B</i>`}
+		pages := map[string]string{"p.html": `<p :insert="fa">x</p><p :insert="fb">x</p><p :replace="solo">x</p>`}
+		solo := `<b :define="solo">S</b>`
+		mkfs := func(m map[string]string) fstest.MapFS {
+			f := fstest.MapFS{}
+			for k, v := range m {
+				f[k] = &fstest.MapFile{Data: []byte(v)}
+			}
+			return f
+		}
+		type tmT = interface {
+			Add(string, io.Reader) error
+			ParseWithSuffix(fs.FS, string) error
+			ParseWithRegexp(fs.FS, *regexp.Regexp) error
+		}
+		steps := map[string]func(m tmT) error{
+			"add-solo":    func(m tmT) error { return m.Add("solo.html", strings.NewReader(solo)) },
+			"parse-lib":   func(m tmT) error { return m.ParseWithSuffix(mkfs(lib), ".html") },
+			"parse-pages": func(m tmT) error { return m.ParseWithRegexp(mkfs(pages), regexp.MustCompile(`\.html$`)) },
+		}
+		orders := [][]string{{"add-solo", "parse-lib", "parse-pages"}, {"parse-lib", "add-solo", "parse-pages"}, {"parse-pages", "parse-lib", "add-solo"},
+			{"parse-lib", "parse-pages", "add-solo"}, {"add-solo", "parse-pages", "parse-lib"}, {"parse-pages", "add-solo", "parse-lib"}}
+		for _, ord := range orders {
+			m := html.NewTplManager()
+			var lerr error
+			for _, st := range ord {
+				if err := steps[st](m); err != nil {
+					lerr = fmt.Errorf("%s: %w", st, err)
+					break
+				}
+			}
+			got := ""
+			if lerr == nil {
+				if t, err := m.GetTemplate("p.html"); err != nil {
+					lerr = err
+				} else {
+					var sb strings.Builder
+					if err := t.Execute(&sb, nil); err != nil {
+						lerr = err
+					}
+					got = sb.String()
+				}
+			}
+			res.eval("steps|"+strings.Join(ord, ","), true, J{"loading_steps": ord})
+			res.S3Checked++
+			res.count("mixed_loading_steps")
+			if want := `<p>A</p><p>B</p>S`; lerr != nil || got != want {
+				res.violate(J{"loading_steps": ord, "lib": lib, "pages": pages}, want, J{"out": got, "err": fmt.Sprint(lerr)},
+					"templates loaded by an earlier loading step are not resolvable after a later one (names are resolved across the whole manager regardless of load order)")
+			}
 		}
 	}
 	// generated sets: load-order independence and specification
